@@ -22,6 +22,8 @@ def check(V, prop, tier):
         "sequential_histories": hist["evaluations"],
         "histories_longer_than_one": hist["distinct_nontrivial"],
         "fresh_process_baselines": hist.get("counters", {}).get("fresh_process_baselines", 0),
+        "placement_parses": hist.get("counters", {}).get("placement_parses", 0),
+        "placement_start_addresses_mod_16": {k[len("placement_address_mod_16_is_"):]: v for k, v in sorted(hist.get("counters", {}).items()) if k.startswith("placement_address_mod_16_is_")},
         "distinct_history_outcomes": hist["distinct_outcomes"],
         "grammars": hist["grammars_enumerated"],
         "grammar_families": hist["grammar_families"],
